@@ -309,7 +309,7 @@ def _c10_extra(recs):
 
 _C19_DAEMON = dict(
         modules=["Mdns.Props.C19Daemon"],
-        model_files="Mdns/Model/Sched.lean",
+        model_files="Mdns/Model/Sched.lean, Mdns/Model/Client.lean",
         nontrivial=_sim_nontrivial,
         extra_evidence=_sim_extra,
         rule="histories on real daemon threads under the simulation seams (virtual clock, simulated interfaces, captured "
@@ -322,14 +322,22 @@ _C19_DAEMON = dict(
                    "timer) predicts every query (per interface and family), every search event and every requested wake-up "
                    "of these histories exactly; on it `one_schedule` (at most one queued retransmission per type/host in "
                    "every reachable state, any history) and the back-off step contracts are Lean theorems. The monitor checks "
-                   "the back-off gaps 1,2,4,..,3600 s on the real packets.",
+                   "the back-off gaps 1,2,4,..,3600 s on the real packets. On the CLIENT model (Client.iter, compared with the real "
+                   "daemon per iteration; Props/C19.lean section ClientModel; whole histories from the fresh daemon, any times / "
+                   "packets / commands): one_schedule_client (at most one queued retransmission per browsed type and per "
+                   "lower-cased host name), carried_delay_in_range (1 <= delay <= 3600), browse_rerun_doubles / "
+                   "resolve_rerun_doubles (next run `delay` s later carrying min(2*delay, 3600)), schedule_arith_safe (Delay.step "
+                   "= ok: no u32 overflow, gap <= 3 600 000 ms), due_time_bounded (no u64 overflow below 2^63), and the chain: "
+                   "browse_schedule_starts, browse_schedule_step, browse_schedule_chain (from query number k sent at t, after ANY "
+                   "history without browse/stop of the type the schedule is at number k+n sent at t' >= t + 1000 * (delay k + ... "
+                   "+ delay (k+n-1))).",
         level_note="Trusted: Lean kernel; axioms propext/Classical.choice/Quot.sound; hand model tied to the code by differential "
                    "comparison of whole histories; simulation seams bypass poll/recv/send/if_addrs/fastrand/system time; "
                    "histories here have no responders (empty cache) - queries caused by cache refresh, follow-ups, new "
                    "interfaces and verify are covered by other properties' checks.",
-        partial=["the chain theorem over whole traces (k-th gap >= k-th delay) is stated as step contracts "
-                 "(browse_starts_schedule, rerun_backs_off, not_due_not_sent) plus the invariant one_schedule, not yet as "
-                 "one theorem over runAll"],
+        partial=["the chain theorem over whole histories (browse_schedule_chain) is proved for browses; for hostname searches "
+                 "(where the deadline can cut the schedule) the step contracts resolve_rerun_doubles / C17.resolve_first_rerun / "
+                 "resolve_rerun_open plus one_schedule_client"],
         assumptions=["event receivers stay alive (a dropped receiver ends the search early: not generated here)",
                      "one `now` per loop iteration"],
 )
@@ -920,15 +928,16 @@ CONFIG["C13"] = dict(
                "in the rest of that iteration, channel free afterwards: SearchStopped last and once; host name in any letter case); "
                "no_ptr_query_after_stop + stop_browse_gone (no PTR question for the type in any later history until browsed again); "
                "no_host_query_after_stop (no A+AAAA / single A or AAAA question for the name, for a daemon without browse work); "
-               "delays_ok_run.",
+               "delays_ok_run. Whole-history capstones from the fresh daemon: browse_channel_lifecycle, resolve_channel_lifecycle "
+               "(nothing on the channel before the call, SearchStarted first, SearchStopped at the stop and nothing after, nothing "
+               "ever after), timeout_channel_lifecycle + timeout_ends_for_good + stale_silent_for_ever (SearchTimeout then "
+               "SearchStopped at the first iteration at/after the deadline, nothing after; the retransmission left queued is inert "
+               "and is purged by a new search of the name).",
     level_note="Trusted: Lean kernel; allowed axioms only; hand model tied to the code by differential comparison of whole "
                "histories; simulation seams. Histories with responders are decided by the monitor only (no model prediction); "
                "'forgets the records it cached' is checked through a later browse of the same type in the same history, not "
                "through metrics.",
-    partial=["client model: the stop theorems take as hypothesis that the search is still running on its channel when the stop is "
-             "processed (a find? on the state in which the stop command runs); the time-out case is covered by the step contracts "
-             "(C17.timeout_contract_client, resolve_rerun_closed: the queued re-run of a timed-out search is a no-op), not by a "
-             "channel invariant; Found-before-Resolved and the shutdown clause are monitor-only",
+    partial=["Found-before-Resolved and the shutdown clause are monitor-only",
              "no_host_query_after_stop assumes a daemon without browse work (A/AAAA questions for the host of a browsed service are "
              "legitimate and have the same shape)"],
     assumptions=["event receivers stay alive", "address queries for a host are attributed to the stopped hostname search only when the daemon has no browse in the history"],
